@@ -62,7 +62,7 @@ class CheckC03(core.Check):
     rule = (
         "case = fresh honest prefix, then message k delivered with ONE alteration (every single-bit flip of fixed fields and sampled/all "
         "payload bits, every truncation length, extensions, multi-byte edits, substitution by an earlier message, by the same-index message "
-        "of a session with other keys, and of a session with the same keys but other ephemerals), then the handshake is continued honestly; "
+        "of a session with other keys, and of a session with the same keys but other ephemerals; a third of the sessions with superfluous pinned peer keys), then the handshake is continued honestly; "
         "oracle: alteration of a message holding any encrypted field => this read must fail; otherwise never both parties finished without "
         "error; distinct key = (pattern+psk variant, DH, message index, alteration kind, field touched / length); non-trivial = the altered "
         "delivery reached the receiving read in the expected state"
@@ -158,7 +158,9 @@ class CheckC03(core.Check):
         res = random.Random(seed).choice([("D", "D"), ("R", "D"), ("D", "DR")])
         for j, (mut, kind, field) in enumerate(sel):
             a, b = "A%d" % j, "B%d" % j
-            sessions.add_pair(c, parsed, keys, res=res, rng=("script:%d" % seed, "script:%d" % (seed + 7)), rec=("-", "-"), ids=(a, b))
+            # a third of the cases: both parties are also given keys the pattern does not ask for (the peer's static key
+            # pinned although it will be transmitted) - a transmitted field must count even if the receiver "knows" it
+            sessions.add_pair(c, parsed, keys, res=res, rng=("script:%d" % seed, "script:%d" % (seed + 7)), rec=("-", "-"), ids=(a, b), supply=("all", "all") if seed % 3 == 0 else ("needed", "needed"))
             pays = ["gen:%d:h%d" % (paylen if i == k else 2, i) for i in range(parsed.nmsgs)]
             for i in range(k):
                 w, r = (a, b) if i % 2 == 0 else (b, a)
